@@ -1,7 +1,7 @@
 (* Property C01 — longest match wins; ties broken by priority (maximal munch).
    This file contains only the final statement; the proof is in Engine/SpecProofs.v. *)
 From Coq Require Import List NArith.
-From LogosV Require Import Engine.Model Engine.Cert Engine.CertProofs Engine.SpecProofs.
+From LogosV Require Import Engine.Model Engine.Cert Engine.CertProofs Engine.SpecProofs Engine.StopProofs Engine.LexProofs.
 Local Open Scope N_scope.
 
 (* For every DFA d and graph g related by a valid certificate, every input w and every attempt
@@ -14,3 +14,13 @@ Theorem C01_maximal_munch : forall d g V D,
   exists c off, attempt_ref g false start (skipn (N.to_nat start) w) = Acted c off /\
                 MaximalMunch d (skipn (N.to_nat start) w) start c.
 Proof. exact C01_maximal_munch_proof. Qed.
+
+(* The whole stream: for every input, callback oracle and boundary function, iterating the reference
+   semantics of the generated code yields exactly the regions (tokens with variant and span, errors
+   with their spans, skipped regions) and the final span of the DFA-level maximal-munch specification
+   [attempt_spec] (longest match by [scan], error end by [viable_end]). *)
+Theorem C01_stream_eq_spec : forall d g V R D,
+  dfa_ok d = true -> sim_ok d g V D = true -> exact_ok d g V R D = true ->
+  forall act fb (w : list byte), bytes_ok w ->
+  lex_all (attempt_ref g) act fb w false = lex_all (attempt_spec d (lv_of R)) act fb w false.
+Proof. exact lex_ref_eq_spec. Qed.
